@@ -254,6 +254,12 @@ func forNud(p *parser, t *token) *token {
 	p.Advance(";")
 	t.Append(p.Expression(0, "{"))
 	t.Append(p.Block("block", "{", "}"))
+	// the init and post clauses are statements: a call there yields no value
+	for _, n := range []int{0, 2} {
+		if t.Tokens[n].Symbol == "call" {
+			t.Tokens[n].Tokens[2].Text = "0"
+		}
+	}
 	return t
 }
 
